@@ -258,6 +258,9 @@ def plan(tier, seed):
         specs.append(dict(name="sizes-%d" % S, kind="sizes", S=S, tier=tier))
     specs.append(dict(name="windows", kind="windows", tier=tier))
     specs.append(dict(name="long", kind="long", tier=tier))
+    for which in ("req", "rsp"):
+        for win in (1, 2, 4):
+            specs.append(dict(name="long-faults-%s-%d" % (which, win), kind="long-faults", which=which, win=win, tier=tier))
     for S in (50, 206) if tier == "quick" else (50, 128, 206, 1476):
         for which in ("req", "rsp", "both"):
             for nseg in (2, 3, 5):
@@ -296,6 +299,21 @@ def run(spec, ctx):
             for win in (1, 4):
                 ctx.check(dict(k="txn", cfg=base_cfg(50, req_len=n, rsp_len=5, c_win=win, s_win=win)))
                 ctx.check(dict(k="txn", cfg=base_cfg(50, req_len=5, rsp_len=n, c_win=win, s_win=win)))
+    elif kind == "long-faults":
+        # a transfer that wraps the 8-bit sequence number: single faults on the frames before, at and after the wrap and at the very end
+        n = txn.payload_for_total(263 * 50 - 7)
+        cfg = base_cfg(50, req_len=n if spec["which"] == "req" else 5, rsp_len=n if spec["which"] == "rsp" else 5, c_win=spec["win"], s_win=spec["win"])
+        frames0 = txn.run_txn(cfg)["frames"]
+        segs = [f["i"] for f in frames0 if f.get("apci") and f["apci"].get("seg")]
+        acks = [f["i"] for f in frames0 if f.get("apci") and f["apci"]["type"] == 4]
+        if len(segs) >= 263:
+            pick = set(segs[250:] + segs[:3])
+            lo = segs[250]
+            pick |= set(i for i in acks if i >= lo) | set(acks[:2])
+            step = 1 if spec["tier"] == "thorough" else (1 if spec["win"] > 1 else 2)
+            for i in sorted(pick)[::step]:
+                for act in (("drop",), ("dup",)) if spec["tier"] == "quick" else (("drop",), ("dup",), ("delay", 0.1), ("delay", 0.75)):
+                    ctx.check(dict(k="txn", cfg=cfg, plan={str(i): list(act)}))
     elif kind == "faults":
         S = spec["S"]
         n = txn.payload_for_total(spec["nseg"] * S - 5)
